@@ -44,7 +44,7 @@ PROPERTIES = {
         ],
     },
     "C03": {
-        "units": ["arena_forest", "ranges"], "kani": [], "kani_cex": [],
+        "units": ["arena_forest", "ranges", "reader_stacks"], "kani": [], "kani_cex": [],
         "explanation": "PARTIAL: every panic!/unwrap/expect/index/cast/arithmetic site in the functions under contract is unreachable "
                        "under the stated preconditions and every recursion there has a decreases measure. Not covered: the event "
                        "mapping in MarkdownEventsReader::read, section_block's panic arm (reachable), handlers, recursion depth.",
@@ -53,8 +53,10 @@ PROPERTIES = {
         ],
     },
     "C01": {
-        "units": ["arena_forest", "ranges"], "kani": [], "kani_cex": [],
-        "explanation": "PARTIAL (conservation layers only): (b) the section splitter's ranges partition the block range in order; "
+        "units": ["arena_forest", "ranges", "reader_stacks"], "kani": [], "kani_cex": [],
+        "explanation": "PARTIAL (conservation layers only): (a) every stack operation of the Markdown reader (push/pop of blocks and inlines, "
+                       "append_block/item/row/cell/inline, apppen) puts the element at the rightmost open position and changes nothing else; "
+                       "(b) the section splitter's ranges partition the block range in order; "
                        "(c) each builder primitive appends exactly one node and changes exactly one link of the cursor, which was empty. "
                        "Parser, event mapping and rendering are not covered.",
         "assumptions": A_COMMON + ["A7 slot-free precondition of the primitives is a caller obligation (known to be violated by one input, DESIGN 2.3)"],
